@@ -92,6 +92,24 @@ type c37Node struct {
 }
 
 func c37Open(id, dir string) (*c37Node, error) {
+	// see g8bOpenSingle: a few attempts, wiping a directory that was empty before
+	_, statErr := os.Stat(filepath.Join(dir, "raft.db"))
+	fresh := statErr != nil
+	var n *c37Node
+	var err error
+	for attempt := 0; attempt < 3; attempt++ {
+		if n, err = c37OpenOnce(id, dir); err == nil {
+			return n, nil
+		}
+		if fresh {
+			os.RemoveAll(dir)
+		}
+		time.Sleep(200 * time.Millisecond)
+	}
+	return nil, err
+}
+
+func c37OpenOnce(id, dir string) (*c37Node, error) {
 	ln, err := net.Listen("tcp", "127.0.0.1:0")
 	if err != nil {
 		return nil, err
@@ -115,6 +133,15 @@ func c37Open(id, dir string) (*c37Node, error) {
 		}
 	}
 	if _, err := s.WaitForLeader(30 * time.Second); err != nil {
+		s.Close(true)
+		ln.Close()
+		return nil, err
+	}
+	// After a restart the log tail is replayed asynchronously; the node is only
+	// "up" for the purposes of this check once everything committed has been
+	// applied (otherwise the applied index keeps moving for a while although no
+	// operation of the history is running).
+	if err := s.Barrier(); err != nil {
 		s.Close(true)
 		ln.Close()
 		return nil, err
@@ -396,25 +423,26 @@ func TestVerif_C37_Uploads(t *testing.T) {
 	rec := vstat.New(t, "C37", "uploads",
 		"operation sequences (4..14 ops quick, ..30 thorough, + 2 closing rounds) over real Store+Provider+Uploader with a fake storage: writes (single/multi, tx/non-tx, unified request), ineffective and failing writes, load, boot, query/noop/snapshot, restart, upload rounds with faults {none, CurrentID error, Upload error before/mid/after read}, rounds with a concurrent writer, now and then a round while another backup holds the snapshot gate beyond the retry budget; provider vacuum x compress generated; non-trivial = at least one round judged must-upload and one judged must-not-upload or faulted; distinct by the op sequence")
 	rapid.Check(t, func(rt *rapid.T) {
+		defer c37RecoverInfra(rec, t)
 		vacuum := rapid.Bool().Draw(rt, "vacuum")
 		compress := rapid.Bool().Draw(rt, "compress")
 		ops := c37GenOps(rt)
 
 		dir, err := os.MkdirTemp("", "c37-")
 		if err != nil {
-			rt.Skip("tempdir")
+			c37Infra("tempdir")
 		}
 		defer os.RemoveAll(dir)
 		dataDir := filepath.Join(dir, "node")
 		n, err := c37Open("n1", dataDir)
 		if err != nil {
 			t.Logf("infrastructure: %v", err)
-			rt.Skip("store did not come up")
+			c37Infra("store did not come up")
 		}
 		defer func() { n.close() }()
 		model, err := c37NewModel()
 		if err != nil {
-			rt.Skip("model")
+			c37Infra("model")
 		}
 		defer func() { model.db.Close() }()
 
@@ -429,7 +457,7 @@ func TestVerif_C37_Uploads(t *testing.T) {
 
 		// initial schema: a change like any other
 		if _, _, err := n.s.Execute(ctx, c37ExecReq([]string{"CREATE TABLE t(id INTEGER PRIMARY KEY, v TEXT)", "INSERT INTO t(v) VALUES('init')"}, true)); err != nil {
-			rt.Skip("setup write failed")
+			c37Infra("setup write failed")
 		}
 		if err := model.exec("CREATE TABLE t(id INTEGER PRIMARY KEY, v TEXT)", "INSERT INTO t(v) VALUES('init')"); err != nil {
 			t.Fatalf("harness: %v", err)
@@ -470,7 +498,7 @@ func TestVerif_C37_Uploads(t *testing.T) {
 				case <-time.After(60 * time.Second):
 					close(release)
 					<-hdone
-					rt.Skip("gate holder did not start")
+					c37Infra("gate holder did not start")
 				}
 				var once sync.Once
 				afterUpload = func() { once.Do(func() { close(release); <-hdone }) }
@@ -478,7 +506,7 @@ func TestVerif_C37_Uploads(t *testing.T) {
 				g := fmt.Sprintf("INSERT INTO t(v) VALUES('g%d')", len(trace))
 				if _, _, err := n.s.Execute(ctx, c37ExecReq([]string{g}, false)); err != nil {
 					afterUpload()
-					rt.Skip("execute failed")
+					c37Infra("execute failed")
 				}
 				if err := model.exec(g); err != nil {
 					t.Fatalf("harness: %v", err)
@@ -493,7 +521,7 @@ func TestVerif_C37_Uploads(t *testing.T) {
 				res, _, err := n.s.Execute(ctx, c37ExecReq(o.Stmts, o.Tx))
 				if err != nil {
 					t.Logf("infrastructure: execute: %v", err)
-					rt.Skip("execute failed")
+					c37Infra("execute failed")
 				}
 				if o.Kind != "failing-write" {
 					for _, r := range res {
@@ -514,7 +542,7 @@ func TestVerif_C37_Uploads(t *testing.T) {
 				res, _, _, err := n.s.Request(ctx, &proto.ExecuteQueryRequest{Request: &proto.Request{Statements: ss, Transaction: o.Tx}, Level: proto.ConsistencyLevel_STRONG})
 				if err != nil {
 					t.Logf("infrastructure: request: %v", err)
-					rt.Skip("request failed")
+					c37Infra("request failed")
 				}
 				for _, r := range res {
 					if r.GetError() != "" || r.GetE().GetError() != "" {
@@ -538,7 +566,7 @@ func TestVerif_C37_Uploads(t *testing.T) {
 					b, _ := os.ReadFile(p)
 					if err := n.s.Load(ctx, &proto.LoadRequest{Data: b}); err != nil {
 						t.Logf("infrastructure: load: %v", err)
-						rt.Skip("load failed")
+						c37Infra("load failed")
 					}
 				} else {
 					f, err := os.Open(p)
@@ -549,7 +577,7 @@ func TestVerif_C37_Uploads(t *testing.T) {
 					f.Close()
 					if err != nil {
 						t.Logf("infrastructure: boot: %v", err)
-						rt.Skip("boot failed")
+						c37Infra("boot failed")
 					}
 				}
 				os.Remove(p)
@@ -560,7 +588,7 @@ func TestVerif_C37_Uploads(t *testing.T) {
 			case "query":
 				ss := []*proto.Statement{{Sql: "SELECT count(*) FROM t"}}
 				if _, _, _, err := n.s.Query(ctx, &proto.QueryRequest{Request: &proto.Request{Statements: ss}, Level: proto.ConsistencyLevel_STRONG}); err != nil {
-					rt.Skip("query failed")
+					c37Infra("query failed")
 				}
 			case "noop":
 				if af, err := n.s.Noop("c37"); err == nil {
@@ -577,7 +605,7 @@ func TestVerif_C37_Uploads(t *testing.T) {
 					if err != nil {
 						t.Fatalf("harness: cannot reopen any store: %v", err)
 					}
-					rt.Skip("store did not reopen")
+					c37Infra("store did not reopen")
 				}
 				up = newUploader()
 				restarted = true
@@ -649,7 +677,7 @@ func TestVerif_C37_Uploads(t *testing.T) {
 				// either acknowledged or failed outright; a failure is infrastructure)
 				if o.Kind == "cround" {
 					if len(acks) != len(attempted) {
-						rt.Skip("concurrent insert failed")
+						c37Infra("concurrent insert failed")
 					}
 					for _, a := range acks {
 						if err := model.exec(fmt.Sprintf("INSERT INTO t(v) VALUES('%s')", a.v)); err != nil {
@@ -819,4 +847,22 @@ func TestVerif_C37_Uploads(t *testing.T) {
 		rec.Case(nMust > 0 && (nMustNot > 0 || nFaulted > 0), canon)
 		rec.Sample(strings.Join(trace, " | "))
 	})
+}
+
+// c37InfraSkip unwinds a case that hit infrastructure trouble (a store that did
+// not come up, a request that could not be served): the case is counted as
+// inconclusive, it is neither a pass nor a violation.
+type c37InfraSkip struct{ why string }
+
+func c37Infra(why string) { panic(c37InfraSkip{why}) }
+
+func c37RecoverInfra(rec *vstat.Rec, t *testing.T) {
+	if r := recover(); r != nil {
+		if s, ok := r.(c37InfraSkip); ok {
+			rec.Label("inconclusive:infrastructure")
+			t.Logf("inconclusive (infrastructure): %s", s.why)
+			return
+		}
+		panic(r)
+	}
 }
